@@ -64,7 +64,7 @@ def gen_offsets(ctx):
 def gen_access(ctx):
     r = ctx.rng
     cases = []
-    shapes = [[6], [0], [3, 4], [2, 3, 2], [2, 1, 2, 2], [0, 3]]
+    shapes = [[6], [0], [3, 4], [2, 3, 2], [2, 1, 2, 2], [0, 3], [3, 0], [2, 0, 2]]
     idxs = AXIS + [['ia', [0, 0, 1]], ['ia', [-1]], ['ia', [7]], ['bm', [True, False]], ['l', [1, 0]], ['f', 1.5], ['str'],
                    ['t', 0, 0, 0, 0, 0], ['t', ['s', None, None, None], 0], ['t', 'E', -1], ['t', 'N', ['s', None, None, -1]],
                    ['t', ['ia', [0, 1]], ['ia', [1, 0]]]]
@@ -80,6 +80,10 @@ def gen_access(ctx):
                     acc.append(dict(k='enter', mode=r.choice([None, 'r+']))); inctx = True
                 elif x < 0.16 and inctx:
                     acc.append(dict(k='exit')); inctx = False
+                elif x < 0.24 and 0 not in sh[1:]:
+                    acc.append(dict(k=r.choice(['grow', 'grow', 'shrink']), n=r.randint(1, 2)))
+                elif x < 0.27 and not inctx:
+                    acc.append(dict(k='hide'))
                 else:
                     ix = r.choice(idxs)
                     if isinstance(ix, list) and ix[0] == 'bm':
@@ -121,6 +125,14 @@ def run(ctx):
                 continue
             ctx.seen(key); ctx.count(acc['k'] + ':' + o['res'][0])
             ctx.traces += 1
+            if acc['k'] in ('grow', 'shrink', 'hide'):
+                if o['res'][0] != 'ok' or o['shape'] != o['refshape']:
+                    ctx.fail('length-change:' + acc['k'], key, expected=o.get('refshape'), observed=o)
+                if 'leak' in o and o['leak'] != [0, 0]:
+                    ctx.fail('leak-after-access:' + acc['k'], key, observed=o['leak'])
+                if acc['k'] == 'hide' and o.get('hidden_access') == 'ok' and o['reflen'] > 0:
+                    ctx.fail('access-without-data-file-succeeded', key, observed=o)
+                continue
             if o['res'][0] != o['ref'][0]:
                 ctx.fail('indexing-outcome-differs:' + acc['k'], key, expected=o['ref'][:2] if o['ref'][0] == 'exc' else 'ok',
                          observed=o['res'][:2])
